@@ -1149,11 +1149,19 @@ class Executor:
             if rv.a == 'Neg' and isinstance(a, Sc):
                 return Sc(self.wrap(-a.t, a.ty), a.ty)
             if rv.a == 'PtrMetadata':
+                if isinstance(a, Obj) and a.kind == 'bytes':
+                    return Sc(z3.IntVal(len(a.data)), 'usize')
+                if isinstance(a, Obj) and a.kind == 'bstr':
+                    return Sc(a.data[0], 'usize')
                 if isinstance(a, Ptr):
                     tv = self.load(st, a.cell, [(kk, None) for kk in a.path])
+                    if isinstance(tv, Obj) and tv.kind == 'bytes':
+                        return Sc(z3.IntVal(len(tv.data)), 'usize')
+                    if isinstance(tv, Obj) and tv.kind == 'bstr':
+                        return Sc(tv.data[0], 'usize')
                     if isinstance(tv, Tree) and tv.origin is None and (tv.meta and tv.meta[0] == 'vec' or all(isinstance(kk, int) for kk in tv.f)):
                         return Sc(z3.IntVal(len([kk for kk in tv.f if isinstance(kk, int)])), 'usize')
-                return self.mk_sym(dest_ty, st.fresh('ptrmeta'))
+                return self.mk_sym(dest_ty, 'hv!' + st.fresh('ptrmeta'))
             raise Inconclusive('unop %s on %r' % (rv.a, a))
         if k == 'cast':
             return self.cast(st, self.eval_operand(st, frame, rv.a), rv.b, rv.c)
@@ -1177,7 +1185,7 @@ class Executor:
                 return Sc(z3.IntVal(len([kk for kk in v.f if isinstance(kk, int)])), 'usize')
             raise Inconclusive('Len of %r' % (v,))
         if k == 'nullop':
-            return self.mk_sym(dest_ty, st.fresh('nullop'))
+            return self.mk_sym(dest_ty, 'hv!' + st.fresh('nullop'))
         if k == 'box':
             return self.eval_operand(st, frame, rv.a)
         raise Inconclusive('rvalue kind ' + k)
